@@ -12,7 +12,7 @@ def make_spec(g, allow):
     r = g.r
     h = gen_history(g, allow)
     spec = dict(cfgs=h.cfgs, execs=h.execs, flags=set(h.flags), recmode=r.choice(['', '', 'true']),
-                modes=r.sample(REPLAY_MODES, 3), pre=[], nest=gen_nest(r, h.execs, 0.3), edit=suites.edit_choice(r, h.execs), count=r.choice([1, 1, 2, 3, 3, 4]))
+                modes=r.sample(REPLAY_MODES, 3), pre=[], nest=gen_nest(r, h.execs, 0.3), edit=suites.edit_choice(r, h.execs), count=1 if any(a in allow for a in ('long', 'big', 'many')) else r.choice([1, 1, 1, 2, 3, 3, 4]))
     if r.random() < 0.4:
         h0 = gen_history(g, ('nosafn',), max_tests=2, max_calls=3, ncfg=len(h.cfgs))
         spec['flags'] |= h0.flags
